@@ -131,6 +131,20 @@ def judge(ctx, idx, case):
         common.drain_monitors(ctx, idx, case)
         return
     ctx.count("roundtrips")
+    if not problems and idx % 6 == 1:
+        # the document goes on living: after the first export an element (inside a bundle, if there is one) gets one more value, and
+        # the export is made again -- it has to be the export of the document as it is now
+        conts = [b for b in doc.bundles if b._records] or [doc]
+        els = [x for x in conts[0]._records if x.is_element()]
+        if els:
+            ns = next(iter(n for n in doc.namespaces if n.prefix), None)
+            if ns is not None:
+                els[0].add_attributes([(ns["tag"], "added after the first export (%d)" % idx)])
+                if rdfspace.in_space(doc) is None:
+                    problems2, text2 = roundtrip_problems(doc)
+                    ctx.count("second_export_after_a_change")
+                    if problems2:
+                        problems, text = [dict(problems2[0], after="a value added after the first export") if isinstance(problems2[0], dict) else problems2[0]] + problems2[1:], text2
     for b in [doc] + list(doc.bundles):
         for rec in b._records:
             kind = rec.get_type().localpart
